@@ -242,6 +242,7 @@ type UnitResult struct {
 	Trusted   map[string]int
 	Imprecise map[string]int
 	SpecErrs  []string
+	Detached  []string
 	HasCon    bool
 	Seconds   float64
 	engine    *Engine
@@ -341,7 +342,14 @@ func (w *World) verifyUnit(fn *ssa.Function, defaultSafety []string) *UnitResult
 		// frame: of the struct types of the touched objects, only those objects changed (among pre-existing ones)
 		fr.frameObs("frame", rpc, fr.entry, rh, fn.Pos())
 	}
-	res := &UnitResult{Fn: fn, Key: funcKey(fn), Pkg: w.pkgOf(fn).Pkg.Name(), Obs: e.obs, Unsupp: e.unsupp, Unmod: e.unmod, Inlined: e.inlined,
+	if con != nil {
+		for _, c := range con.Calls {
+			if !e.attached[c] {
+				e.detached = append(e.detached, fmt.Sprintf("call clause %s#%d %s of %s attaches to no call", c.CallName, c.CallOrd, strings.TrimPrefix(c.Kind, "call-"), funcKey(fn)))
+			}
+		}
+	}
+	res := &UnitResult{Fn: fn, Key: funcKey(fn), Pkg: w.pkgOf(fn).Pkg.Name(), Detached: e.detached, Obs: e.obs, Unsupp: e.unsupp, Unmod: e.unmod, Inlined: e.inlined,
 		Trusted: e.trusted, Imprecise: e.imprecise, SpecErrs: e.specErrs, HasCon: con != nil, engine: e}
 	// stable obligation names
 	seen := map[string]int{}
